@@ -77,3 +77,31 @@ def raiser(kind: str, args: list):
 
 class CustomError(Exception):
     pass
+
+
+import enum as _enum
+
+
+class Color(_enum.Enum):
+    RED = "red"
+    BLUE = "blue"
+
+
+class Level(_enum.IntEnum):
+    LOW = 1
+    HIGH = 7
+
+
+def value_by_attempt(plan: list):
+    """plan[k] = ["value", v] or ["raise", kind, args] for the k-th execution of this invocation (last entry repeats)"""
+    import builtins
+    i = _inv_id()
+    n = ATTEMPTS.get(i, 0)
+    ATTEMPTS[i] = n + 1
+    BODY_LOG.append(("enter", i))
+    step = plan[min(n, len(plan) - 1)]
+    BODY_LOG.append(("exit", i))
+    if step[0] == "value":
+        return step[1]
+    cls = getattr(builtins, step[1])
+    raise cls(*step[2])
